@@ -12,6 +12,7 @@ import (
 	"log"
 	"os"
 	"runtime/debug"
+	"runtime/pprof"
 	"sort"
 	"strings"
 	"time"
@@ -128,7 +129,14 @@ func (h *H) Run() {
 	list := flag.Bool("list", false, "list scenarios")
 	nosleep := flag.Bool("nosleep", false, "unbounded searches without sleep-set reduction (cross-check)")
 	scen := flag.String("scen", "0/1", "i/n: run only scenarios with index%n==i")
+	cpuprof := flag.String("cpuprofile", "", "write a CPU profile of the whole run here (tuning aid)")
 	flag.Parse()
+	if *cpuprof != "" {
+		if f, err := os.Create(*cpuprof); err == nil {
+			pprof.StartCPUProfile(f)
+			defer pprof.StopCPUProfile()
+		}
+	}
 	h.Tier = *tier
 	h.Seed = *seed
 	h.NoSleep = *nosleep
